@@ -40,52 +40,62 @@ SINK_CALLS = {'yr_stream_read': (2,), 'yr_arena_ref_to_ptr': (1,), 'yr_arena_all
 RELOPS = ('<', '>', '<=', '>=', '==', '!=')
 
 
-def r17_1(ctx):
+def loader_family(ctx):
+    """the loader and the static helpers of arena.c it is built from"""
     f = ctx.fn(LOADER, 'libyara/arena.c')
-    reads = [c for c in f.calls() if c.get('callee') == 'yr_stream_read']
-    ctx.require(len(reads) >= 3 or ctx.fixture, 'only %d yr_stream_read calls in the loader' % len(reads))
-    occ = 0
-    for c in reads:
-        occ += 1
-        # the call's value must flow into a comparison (directly or via a local)
-        p = f.parent(c)
-        while p is not None and p['k'] == 'cast':
-            p = f.parent(p)
-        from .C14 import canon
-        want = canon(f, f.call_args(c)[2])
+    return cu.family(ctx.prog, f)
 
-        def against_count(cmpnode, me):
-            """the other operand of the comparison is the requested item count"""
-            a, b = f.kid(cmpnode, 0), f.kid(cmpnode, 1)
-            other = b if (cu.strip_casts(f, a) is me or f.is_ancestor(a, me)) else a
-            return canon(f, other) == want
-        compared = p is not None and p['k'] == 'bin' and p['op'] in RELOPS and against_count(p, c)
-        weak = p is not None and p['k'] == 'bin' and p['op'] in RELOPS and not compared
-        var = None
-        if not compared and p is not None:
-            if p['k'] == 'decl':
-                var = p['name']
-            elif p['k'] == 'bin' and p['op'] == '=':
-                l = f.kid(p, 0)
-                var = l['name'] if l is not None and l['k'] == 'ref' else None
-            if var:
-                for n in f.all_nodes():
-                    if n['k'] == 'bin' and n['op'] in RELOPS:
-                        for x in (f.kid(n, 0), f.kid(n, 1)):
-                            xs = cu.strip_casts(f, x)
-                            if xs is not None and xs['k'] == 'ref' and xs['name'] == var:
-                                if against_count(n, xs):
-                                    compared = True
-                                else:
-                                    weak = True
-        dst = f.show(cu.strip_casts(f, f.call_args(c)[0]))[:24]
-        ctx.ob('R17.1', '%s:read#%d(%s):count-checked' % (f.name, occ, dst), compared, f.loc(c),
-               'the number of items read is compared with the number requested (%s)' % want if compared else
-               ('the result of yr_stream_read is compared, but not with the %s item(s) requested: a '
-                'short read is accepted as if all the data were there' % want) if weak else
-               'the result of yr_stream_read is not checked: a short file is accepted as if '
-               'the data were there')
-    return f
+
+def r17_1(ctx):
+    root = ctx.fn(LOADER, 'libyara/arena.c')
+    fam = loader_family(ctx)
+    total = sum(1 for f in fam for c in f.calls() if c.get('callee') == 'yr_stream_read')
+    ctx.require(total >= 3 or ctx.fixture, 'only %d yr_stream_read calls in the loader' % total)
+    from .C14 import rcanon
+    for f in fam:
+        occ = 0
+        for c in f.calls():
+            if c.get('callee') != 'yr_stream_read':
+                continue
+            occ += 1
+            # the call's value must flow into a comparison (directly or via a local)
+            p = f.parent(c)
+            while p is not None and p['k'] == 'cast':
+                p = f.parent(p)
+            want = rcanon(f, f.call_args(c)[2])
+
+            def against_count(cmpnode, me):
+                """the other operand of the comparison is the requested item count"""
+                a, b = f.kid(cmpnode, 0), f.kid(cmpnode, 1)
+                other = b if (cu.strip_casts(f, a) is me or f.is_ancestor(a, me)) else a
+                return rcanon(f, other) == want
+            compared = p is not None and p['k'] == 'bin' and p['op'] in RELOPS and against_count(p, c)
+            weak = p is not None and p['k'] == 'bin' and p['op'] in RELOPS and not compared
+            var = None
+            if not compared and p is not None:
+                if p['k'] == 'decl':
+                    var = p['name']
+                elif p['k'] == 'bin' and p['op'] == '=':
+                    l = f.kid(p, 0)
+                    var = l['name'] if l is not None and l['k'] == 'ref' else None
+                if var:
+                    for n in f.all_nodes():
+                        if n['k'] == 'bin' and n['op'] in RELOPS:
+                            for x in (f.kid(n, 0), f.kid(n, 1)):
+                                xs = cu.strip_casts(f, x)
+                                if xs is not None and xs['k'] == 'ref' and xs['name'] == var:
+                                    if against_count(n, xs):
+                                        compared = True
+                                    else:
+                                        weak = True
+            dst = f.show(cu.strip_casts(f, f.call_args(c)[0]))[:24]
+            ctx.ob('R17.1', '%s:read#%d(%s):count-checked' % (f.name, occ, dst), compared, f.loc(c),
+                   'the number of items read is compared with the number requested (%s)' % want if compared else
+                   ('the result of yr_stream_read is compared, but not with the %s item(s) requested: a '
+                    'short read is accepted as if all the data were there' % want) if weak else
+                   'the result of yr_stream_read is not checked: a short file is accepted as if '
+                   'the data were there')
+    return root
 
 
 def _fields_checked_on_success(g, pname):
@@ -127,285 +137,470 @@ def _fields_checked_on_success(g, pname):
     return result[0] or set()
 
 
-def r17_2(ctx):
-    f = ctx.fn(LOADER, 'libyara/arena.c')
-    # taint sources
-    tainted = set()
-    for c in f.calls():
-        if c.get('callee') == 'yr_stream_read':
-            a = cu.strip_casts(f, f.call_args(c)[0])
-            if a is not None and a['k'] == 'un' and a['op'] == '&':
-                a = f.kid(a, 0)
-            if a is not None and a['k'] == 'ref':
-                tainted.add(a['name'])
-        if c.get('callee') == 'memcpy':
-            d = cu.strip_casts(f, f.call_args(c)[0])
-            s = f.call_args(c)[1]
-            if d is not None and d['k'] == 'un' and d['op'] == '&' and \
-                    any(x['k'] == 'member' and x['fld'] == 'data' for x in f.walk(s)):
-                v = f.kid(d, 0)
-                if v is not None and v['k'] == 'ref':
-                    tainted.add(v['name'])
-    # only record-typed sources have fields worth tracking
-    locs = {l['name']: l for l in f.locals}
-    sources = set(n for n in tainted if n in locs and ('struct' in locs[n]['type'] or
-                                                       'YR_ARENA' in locs[n]['type'] or
-                                                       locs[n]['type'].startswith('YR_')))
-    ctx.require(len(sources) >= 3 or ctx.fixture, 'file-derived variables not recognised: %s' % sorted(tainted))
+def _is_record_type(t):
+    t = (t or '').replace('const ', '').strip()
+    return t.startswith('struct') or t.startswith('YR_') or t.startswith('_YR_')
 
-    def decl_of(r):
-        """the declaration a reference denotes (innermost enclosing scope)"""
-        child = r
-        for a in f.ancestors(r):
-            if a['k'] == 'compound':
-                for st in f.kids(a):
-                    if st is child:
-                        break
-                    if st['k'] == 'declstmt':
-                        for d in f.kids(st):
-                            if d['k'] == 'decl' and d['name'] == r['name'] and \
-                                    d.get('l', 0) <= r.get('l', 0):
-                                return d['i']
-            child = a
-        return -1
 
-    src_decls = set()
-    for c in f.calls():
-        if c.get('callee') in ('yr_stream_read', 'memcpy'):
-            a = cu.strip_casts(f, f.call_args(c)[0])
-            if a is not None and a['k'] == 'un' and a['op'] == '&':
-                a = f.kid(a, 0)
-            if a is not None and a['k'] == 'ref' and a['name'] in sources:
-                if c['callee'] == 'yr_stream_read' or any(
-                        x['k'] == 'member' and x['fld'] == 'data' for x in f.walk(f.call_args(c)[1])):
-                    src_decls.add((a['name'], decl_of(a)))
+def _fill_summary(fam):
+    """{function: set(parameter index)}: parameters whose pointee the function
+    fills with bytes of the stream (directly or through another helper)"""
+    fills = {g.name: set() for g in fam}
+    changed = True
+    while changed:
+        changed = False
+        for g in fam:
+            pn = [p['name'] for p in g.params]
+            for c in g.calls():
+                cal = c.get('callee')
+                if cal == 'yr_stream_read':
+                    idxs = [0]
+                elif cal in fills and cal != g.name:
+                    idxs = sorted(fills[cal])
+                else:
+                    continue
+                args = g.call_args(c)
+                for j in idxs:
+                    if j >= len(args):
+                        continue
+                    x = cu.strip_casts(g, args[j])
+                    if x is not None and x['k'] == 'ref' and x.get('dk') == 'param' and x['name'] in pn:
+                        i = pn.index(x['name'])
+                        if i not in fills[g.name]:
+                            fills[g.name].add(i)
+                            changed = True
+    return fills
 
-    def field_of(n):
-        """'var.field' if n reads a field of a file-derived variable"""
-        n = cu.strip_casts(f, n)
-        if n is None or n['k'] != 'member':
-            return None
-        root, path = cu.member_path(f, n)
-        if root is not None and root['k'] == 'ref' and root['name'] in sources and \
-                (root['name'], decl_of(root)) in src_decls:
-            return '%s.%s' % (root['name'], path[-1])
+
+class _LoaderTaint(object):
+    """R17.2 in one function of the loader family.  `entry` describes what the
+    callers hand in: {'rec': {param: set(checked fields)}, 'sc': {param: bool}}."""
+
+    def __init__(self, ctx, g, fam, fills, entry):
+        self.ctx, self.g, self.fills, self.entry = ctx, g, fills, entry
+        self.fam = {h.name: h for h in fam}
+        self.obs = []
+        self.callee_entries = {}
+        self.n_sources = 0
+        self.n_sinks = 0
+
+    # -- sources -----------------------------------------------------------
+    def _var_of_arg(self, a):
+        """the variable an argument designates when it is `&v` or `v`"""
+        g = self.g
+        a = cu.strip_casts(g, a)
+        if a is not None and a['k'] == 'un' and a['op'] == '&':
+            a = cu.strip_casts(g, g.kid(a, 0))
+        if a is not None and a['k'] == 'ref':
+            return a
         return None
 
-    def fields_in(e):
+    def _from_loaded_buffer(self, e):
+        """e reads the content of a loaded buffer (mentions a `data` member), also
+        through a local that merely names such an expression"""
+        g = self.g
+        for x in g.walk(e):
+            if x['k'] == 'member' and x['fld'] == 'data':
+                return True
+            if x['k'] == 'ref':
+                d = cu.stable_def_of(g, x)
+                if d is not None and any(y['k'] == 'member' and y['fld'] == 'data' for y in g.walk(d)):
+                    return True
+        return False
+
+    def find_sources(self):
+        g = self.g
+        types = {l['name']: l['type'] for l in g.locals}
+        types.update({p['name']: p.get('type', '') for p in g.params})
+        tainted = {}           # (name, decl id) -> ref node
+        for c in g.calls():
+            cal = c.get('callee')
+            args = g.call_args(c)
+            dests = []
+            if cal == 'yr_stream_read':
+                dests = [0]
+            elif cal == 'memcpy' and len(args) >= 2 and self._from_loaded_buffer(args[1]):
+                dests = [0]
+            elif cal in self.fills:
+                dests = sorted(self.fills[cal])
+            for j in dests:
+                if j < len(args):
+                    v = self._var_of_arg(args[j])
+                    if v is not None and _is_record_type(types.get(v['name'])):
+                        tainted[(v['name'], self._decl(v))] = v
+        self.rec = set(tainted)                       # (name, decl)
+        self.rec_names = set(n for n, _ in self.rec)
+        for pn in self.entry.get('rec', {}):
+            self.rec.add((pn, -1))
+            self.rec_names.add(pn)
+        self.sc = set(self.entry.get('sc', {}))
+        self.n_sources = len(self.rec) + len(self.sc)
+
+    def _decl(self, r):
+        if r.get('dk') == 'param':
+            return -1
+        d = cu.decl_of(self.g, r)
+        return d['i'] if d is not None else -2
+
+    # -- file-derived fields in an expression ---------------------------------
+    def field_of(self, n, depth=0):
+        g = self.g
+        n = cu.strip_casts(g, n)
+        if n is None:
+            return None
+        if n['k'] == 'member':
+            root, path = cu.member_path(g, n)
+            if root is not None and root['k'] == 'ref' and root['name'] in self.rec_names and \
+                    (root['name'], self._decl(root)) in self.rec and path:
+                return '%s.%s' % (root['name'], path[-1])
+            return None
+        if n['k'] == 'ref':
+            if n.get('dk') == 'param' and n['name'] in self.sc:
+                return n['name']
+            if depth < 2:
+                d = cu.stable_def_of(g, n)
+                if d is not None:
+                    ds = cu.strip_casts(g, d)
+                    if ds is not None and ds['k'] in ('member', 'ref'):
+                        return self.field_of(ds, depth + 1)
+        return None
+
+    def fields_in(self, e):
         out = set()
-        for x in f.walk(e):
-            k = field_of(x)
+        if e is None:
+            return out
+        for x in self.g.walk(e):
+            k = self.field_of(x)
             if k:
                 out.add(k)
         return out
 
-    sinks = []      # (node, field, kind)
-    for n in f.all_nodes():
-        if n['k'] == 'sub':
-            p = f.parent(n)
-            if p is not None and p['k'] == 'un' and p['op'] == '&':
-                continue        # &table[i]: address computation only, no access
-            for k in fields_in(f.kid(n, 1)):
-                sinks.append((n, k, 'array index'))
-        elif n['k'] == 'bin' and n['op'] in ('+', '-') and '*' in (n.get('t') or ''):
-            for k in fields_in(f.kid(n, 1)):
-                sinks.append((n, k, 'pointer offset'))
-        elif n['k'] == 'call' and n.get('callee') in SINK_CALLS:
-            args = f.call_args(n)
-            for i in SINK_CALLS[n['callee']]:
-                if i >= len(args):
-                    continue
-                a = cu.strip_casts(f, args[i])
-                for k in fields_in(a):
-                    sinks.append((n, k, 'argument of %s' % n['callee']))
-                # &var : every field of the variable reaches the callee
-                if a is not None and a['k'] == 'un' and a['op'] == '&':
-                    v = f.kid(a, 0)
-                    if v is not None and v['k'] == 'ref' and v['name'] in sources and \
-                            (v['name'], decl_of(v)) in src_decls:
-                        rec = ctx.prog.records.get((v.get('trec') or ''))
-                        flds = [x['name'] for x in rec['fields']] if rec else ['*']
-                        for fl in flds:
+    def _all_fields(self, v):
+        rec = self.ctx.prog.records.get(v.get('trec') or v.get('prec') or '')
+        return [x['name'] for x in rec['fields']] if rec else ['*']
+
+    # -- sinks -------------------------------------------------------------------
+    def find_sinks(self):
+        g = self.g
+        sinks = []
+        for n in g.all_nodes():
+            if n['k'] == 'sub':
+                p = g.parent(n)
+                if p is not None and p['k'] == 'un' and p['op'] == '&':
+                    continue        # &table[i]: address computation only, no access
+                for k in self.fields_in(g.kid(n, 1)):
+                    sinks.append((n, k, 'array index'))
+            elif n['k'] == 'bin' and n['op'] in ('+', '-') and '*' in (n.get('t') or ''):
+                for k in self.fields_in(g.kid(n, 1)):
+                    sinks.append((n, k, 'pointer offset'))
+            elif n['k'] == 'call' and n.get('callee') in SINK_CALLS:
+                args = g.call_args(n)
+                for i in SINK_CALLS[n['callee']]:
+                    if i >= len(args):
+                        continue
+                    a = cu.strip_casts(g, args[i])
+                    for k in self.fields_in(a):
+                        sinks.append((n, k, 'argument of %s' % n['callee']))
+                    # &var (or the pointer parameter itself): every field reaches the callee
+                    v = self._var_of_arg(a) if a is not None and (
+                        a['k'] == 'ref' or (a['k'] == 'un' and a['op'] == '&')) else None
+                    if v is not None and (v['name'], self._decl(v)) in self.rec and \
+                            not (n['callee'] == 'yr_stream_read' and i == 0):
+                        for fl in self._all_fields(v):
                             sinks.append((n, '%s.%s' % (v['name'], fl), 'argument of %s' % n['callee']))
-        elif n['k'] == 'for':
-            parts = n.get('parts', [])
-            c = f.node(parts[1]) if len(parts) > 1 and parts[1] >= 0 else None
-            if c is not None:
-                for k in fields_in(c):
-                    sinks.append((c, k, 'loop bound'))
-    ctx.require(len(sinks) >= 6 or ctx.fixture, 'only %d sinks of file-derived values found' % len(sinks))
-    read_results = set()
-    for c in f.calls():
-        if c.get('callee') == 'yr_stream_read':
-            p = f.parent(c)
-            while p is not None and p['k'] == 'cast':
-                p = f.parent(p)
-            if p is not None and p['k'] == 'decl':
-                read_results.add(p['name'])
-            elif p is not None and p['k'] == 'bin' and p['op'] == '=':
-                l = f.kid(p, 0)
-                if l is not None and l['k'] == 'ref':
-                    read_results.add(l['name'])
-    # explore: which fields have been compared on every path to each sink
-    unchecked = {}
-    reached = set()
+            elif n['k'] == 'for':
+                parts = n.get('parts', [])
+                c = g.node(parts[1]) if len(parts) > 1 and parts[1] >= 0 else None
+                if c is not None:
+                    for k in self.fields_in(c):
+                        sinks.append((c, k, 'loop bound'))
+        self.sinks = sinks
+        self.n_sinks = len(sinks)
 
-    def step(n, facts):
+    # -- the path analysis ----------------------------------------------------------
+    def run(self):
+        g, ctx = self.g, self.ctx
+        self.find_sources()
+        self.find_sinks()
+        sinks = self.sinks
+        read_results = set()
+        for c in g.calls():
+            if c.get('callee') == 'yr_stream_read':
+                p = g.parent(c)
+                while p is not None and p['k'] == 'cast':
+                    p = g.parent(p)
+                if p is not None and p['k'] == 'decl':
+                    read_results.add(p['name'])
+                elif p is not None and p['k'] == 'bin' and p['op'] == '=':
+                    l = g.kid(p, 0)
+                    if l is not None and l['k'] == 'ref':
+                        read_results.add(l['name'])
+        unchecked = {}
+        by_node = {}
         for i, (sn, k, kind) in enumerate(sinks):
-            if sn is n:
-                reached.add(i)
-                if ('chk', k) not in facts:
+            by_node.setdefault(sn['i'], []).append(i)
+        # helpers: what they fill and what they have compared when they return success
+        helper_checked = {}
+        helper_fills = {}
+        for c in g.calls():
+            h = self.fam.get(c.get('callee') or '')
+            if h is None or h is g:
+                continue
+            for i, a in enumerate(g.call_args(c)):
+                v = self._var_of_arg(a)
+                if v is None or (v['name'], self._decl(v)) not in self.rec or i >= len(h.params):
+                    continue
+                if i in self.fills.get(h.name, ()):
+                    helper_fills.setdefault(c['i'], set()).add(v['name'])
+                flds = _fields_checked_on_success(h, h.params[i]['name'])
+                if flds:
+                    helper_checked.setdefault(c['i'], set()).update('%s.%s' % (v['name'], fl) for fl in flds)
+
+        def drop(facts, name):
+            return frozenset(x for x in facts if not (x[0] == 'chk' and x[1].startswith(name + '.')))
+
+        def step(n, facts):
+            for i in by_node.get(n['i'], ()):
+                if ('chk', sinks[i][1]) not in facts:
                     unchecked.setdefault(i, n)
-        if n['k'] == 'call' and n.get('callee') in ('yr_stream_read', 'memcpy'):
-            # re-filled: previous checks no longer apply
-            a = cu.strip_casts(f, f.call_args(n)[0])
-            if a is not None and a['k'] == 'un' and a['op'] == '&':
-                a = f.kid(a, 0)
-            if a is not None and a['k'] == 'ref' and a['name'] in sources:
-                return frozenset(x for x in facts if not (x[0] == 'chk' and x[1].startswith(a['name'] + '.')))
-        if n['k'] == 'ret':
-            return None
-        return facts
-
-    # helpers that validate a file-derived record handed to them by address: the fields
-    # they compare against a bound on every path that returns success count as compared
-    # in the caller once the helper's result was tested (extract-function refactorings)
-    helper_checked = {}
-    for c in f.calls():
-        g = f.tu.functions.get(c.get('callee', '')) if c.get('callee') else None
-        if g is None or not getattr(g, 'static', False):
-            continue
-        for i, a in enumerate(f.call_args(c)):
-            a = cu.strip_casts(f, a)
-            if a is not None and a['k'] == 'un' and a['op'] == '&':
-                v = f.kid(a, 0)
-                if v is not None and v['k'] == 'ref' and v['name'] in sources and i < len(g.params):
-                    flds = _fields_checked_on_success(g, g.params[i]['name'])
-                    if flds:
-                        helper_checked[c['i']] = set('%s.%s' % (v['name'], fl) for fl in flds)
-
-    def edge(b, term, cond, idx, succ, facts):
-        pol = paths.branch_polarity(f, term, idx)
-        if pol is None or cond is None:
+            if n['k'] == 'call':
+                cal = n.get('callee')
+                if cal in ('yr_stream_read', 'memcpy'):
+                    # re-filled: previous checks no longer apply
+                    v = self._var_of_arg(g.call_args(n)[0])
+                    if v is not None and v['name'] in self.rec_names:
+                        return drop(facts, v['name'])
+                h = self.fam.get(cal or '')
+                if h is not None and h is not g:
+                    self.note_call(n, h, facts)
+                    for name in helper_fills.get(n['i'], ()):
+                        facts = drop(facts, name)
+                    return facts
+            if n['k'] == 'ret':
+                return None
             return facts
-        c, p_ = paths.normalise_cond(f, cond, pol)
-        # FAIL_ON_ERROR(helper(&record)): on the success edge the helper's checks hold
-        if c is not None and c['k'] == 'bin' and c['op'] in ('!=', '==') and \
-                cu.const_of(cu.strip_casts(f, f.kid(c, 1))) == 0:
-            l = cu.strip_casts(f, f.kid(c, 0))
-            hc = None
-            if l is not None and l['k'] == 'call' and l['i'] in helper_checked:
-                hc = helper_checked[l['i']]
-            elif l is not None and l['k'] == 'ref':
-                for d in f.all_nodes():
-                    if d['k'] == 'decl' and d['name'] == l['name'] and d.get('c'):
-                        r0 = cu.strip_casts(f, f.kid(d, 0))
-                        if r0 is not None and r0['k'] == 'call' and r0['i'] in helper_checked and \
-                                f.is_ancestor(f.parent(f.parent(d)), c) if f.parent(d) is not None else False:
+
+        def edge(b, term, cond, idx, succ, facts):
+            pol = paths.branch_polarity(g, term, idx)
+            if pol is None or cond is None:
+                return facts
+            c, p_ = paths.normalise_cond(g, cond, pol)
+            # FAIL_ON_ERROR(helper(&record)): on the success edge the helper's checks hold
+            if c is not None and c['k'] == 'bin' and c['op'] in ('!=', '==') and \
+                    cu.const_of(cu.strip_casts(g, g.kid(c, 1))) == 0:
+                l = cu.strip_casts(g, g.kid(c, 0))
+                hc = None
+                if l is not None and l['k'] == 'call' and l['i'] in helper_checked:
+                    hc = helper_checked[l['i']]
+                elif l is not None and l['k'] == 'ref':
+                    d = cu.decl_of(g, l) if l.get('dk') == 'local' else None
+                    if d is not None and d.get('c'):
+                        r0 = cu.strip_casts(g, g.kid(d, 0))
+                        if r0 is not None and r0['k'] == 'call' and r0['i'] in helper_checked:
                             hc = helper_checked[r0['i']]
-            if hc and ((c['op'] == '==') == p_):
-                return frozenset(facts) | set(('chk', k) for k in hc)
-        if c is not None and c['k'] == 'bin' and c['op'] in RELOPS:
-            ks = set()
-            a0, a1 = f.kid(c, 0), f.kid(c, 1)
-            for x, y in ((a0, a1), (a1, a0)):
-                kx = fields_in(x) if x is not None else set()
-                # the other side must be a bound: not file-derived itself and
-                # not the item count returned by yr_stream_read
-                other_tainted = bool(fields_in(y)) if y is not None else False
-                if y is not None:
-                    for z in f.walk(y):
-                        if z['k'] == 'ref' and z['name'] in read_results:
-                            other_tainted = True
-                if kx and not other_tainted:
-                    ks |= kx
-            # the variable compared as a whole (memcmp(&ref, &NULL_REF, ..) == 0)
-            for x in f.walk(c):
-                px = f.parent(x)
-                while px is not None and px['k'] == 'cast':
-                    px = f.parent(px)
-                if x['k'] == 'un' and x['op'] == '&' and px is not None and \
-                        px['k'] == 'call' and px.get('callee') == 'memcmp':
-                    v = f.kid(x, 0)
-                    if v is not None and v['k'] == 'ref' and v['name'] in sources and \
-                            (v['name'], decl_of(v)) in src_decls:
-                        rec = ctx.prog.records.get((v.get('trec') or ''))
-                        for fl in (rec['fields'] if rec else []):
-                            ks.add('%s.%s' % (v['name'], fl['name']))
+                if hc and ((c['op'] == '==') == p_):
+                    return frozenset(facts) | set(('chk', k) for k in hc)
+            if c is not None and c['k'] == 'bin' and c['op'] in RELOPS:
+                ks = set()
+                a0, a1 = g.kid(c, 0), g.kid(c, 1)
+                for x, y in ((a0, a1), (a1, a0)):
+                    kx = self.fields_in(x)
+                    # the other side must be a bound: not file-derived itself (unless that
+                    # value has been bounded already: buffers[ref.buffer_id].used) and
+                    # not the item count returned by yr_stream_read
+                    other_tainted = any(('chk', k) not in facts for k in self.fields_in(y))
+                    if y is not None:
+                        for z in g.walk(y):
+                            if z['k'] == 'ref' and z['name'] in read_results:
+                                other_tainted = True
+                    if kx and not other_tainted:
+                        ks |= kx
+                # the variable compared as a whole (memcmp(&ref, &NULL_REF, ..) == 0): on the
+                # edge where it equals the constant every field is known
+                whole = c['op'] in ('==', '!=') and ((c['op'] == '==') == p_) and \
+                    0 in (cu.const_of(cu.strip_casts(g, a0)), cu.const_of(cu.strip_casts(g, a1)))
+                for x in (g.walk(c) if whole else ()):
+                    px = g.parent(x)
+                    while px is not None and px['k'] == 'cast':
+                        px = g.parent(px)
+                    if x['k'] == 'un' and x['op'] == '&' and px is not None and \
+                            px['k'] == 'call' and px.get('callee') == 'memcmp':
+                        v = g.kid(x, 0)
+                        if v is not None and v['k'] == 'ref' and (v['name'], self._decl(v)) in self.rec:
+                            for fl in self._all_fields(v):
+                                ks.add('%s.%s' % (v['name'], fl))
+                if ks:
+                    return frozenset(facts) | set(('chk', k) for k in ks)
+            return facts
+        init = set()
+        for pn, flds in self.entry.get('rec', {}).items():
+            init |= set(('chk', '%s.%s' % (pn, fl)) for fl in flds)
+        for pn, ok in self.entry.get('sc', {}).items():
+            if ok:
+                init.add(('chk', pn))
+        try:
+            paths.explore(g, init, step, edge, max_states=512)
+        except paths.Budget as e:
+            ctx.require(False, str(e))
+        seen_keys = set()
+        for i, (sn, k, kind) in enumerate(sinks):
+            key = '%s:%s:%s' % (g.name, k, kind.replace(' ', '-'))
+            if key in seen_keys and i not in unchecked:
+                continue
+            seen_keys.add(key)
+            ok = i not in unchecked
+            self.obs.append(('R17.2', key, ok, g.loc(sn),
+                             'file-derived %s is compared against a bound before it is used as %s' % (k, kind)
+                             if ok else
+                             'file-derived value %s is used as %s (%s) on a path where it was never compared '
+                             'against a bound: a damaged file drives the loader out of bounds' % (
+                                 k, kind, g.show(sn)[:60])))
+        return self
+
+    def note_call(self, n, h, facts):
+        """what this call hands to helper h (merged over paths and call sites)"""
+        g = self.g
+        ent = self.callee_entries.setdefault(h.name, {'rec': {}, 'sc': {}})
+        for j, a in enumerate(g.call_args(n)):
+            if j >= len(h.params):
+                continue
+            pn = h.params[j]['name']
+            v = self._var_of_arg(a)
+            if v is not None and (v['name'], self._decl(v)) in self.rec:
+                if j in self.fills.get(h.name, ()):
+                    continue            # the helper fills it itself: a source there
+                chk = set(x[1].split('.', 1)[1] for x in facts
+                          if x[0] == 'chk' and x[1].startswith(v['name'] + '.'))
+                ent['rec'][pn] = chk if pn not in ent['rec'] else (ent['rec'][pn] & chk)
+                continue
+            ks = self.fields_in(a)
             if ks:
-                return frozenset(facts) | set(('chk', k) for k in ks)
-        return facts
-    paths.explore(f, set(), step, edge, max_states=512)
-    seen_keys = set()
-    for i, (sn, k, kind) in enumerate(sinks):
-        key = '%s:%s:%s' % (f.name, k, kind.replace(' ', '-'))
-        if key in seen_keys and i not in unchecked:
+                ok = all(('chk', k) in facts for k in ks)
+                ent['sc'][pn] = ok if pn not in ent['sc'] else (ent['sc'][pn] and ok)
+
+
+def r17_2(ctx):
+    fam = loader_family(ctx)
+    fills = _fill_summary(fam)
+    entries = {fam[0].name: {'rec': {}, 'sc': {}}}
+    results = {}
+    # callers before callees; repeated until what the helpers are handed is stable
+    for _ in range(4):
+        before = repr(sorted((k, sorted((a, sorted(b)) for a, b in v['rec'].items()), sorted(v['sc'].items()))
+                             for k, v in entries.items()))
+        new_entries = {fam[0].name: {'rec': {}, 'sc': {}}}
+        for g in fam:
+            if g.name not in entries:
+                continue
+            an = _LoaderTaint(ctx, g, fam, fills, entries[g.name]).run()
+            results[g.name] = an
+            for hn, ent in an.callee_entries.items():
+                cur = new_entries.get(hn)
+                if cur is None:
+                    new_entries[hn] = {'rec': dict(ent['rec']), 'sc': dict(ent['sc'])}
+                else:
+                    for k, v in ent['rec'].items():
+                        cur['rec'][k] = v if k not in cur['rec'] else (cur['rec'][k] & v)
+                    for k, v in ent['sc'].items():
+                        cur['sc'][k] = v if k not in cur['sc'] else (cur['sc'][k] and v)
+            for hn, ent in new_entries.items():
+                if hn not in entries:
+                    entries[hn] = ent
+        for hn, ent in new_entries.items():
+            entries[hn] = ent
+        after = repr(sorted((k, sorted((a, sorted(b)) for a, b in v['rec'].items()), sorted(v['sc'].items()))
+                            for k, v in entries.items()))
+        if after == before:
+            break
+    n_sources = sum(r.n_sources for r in results.values())
+    n_sinks = sum(r.n_sinks for r in results.values())
+    ctx.require(n_sources >= 3 or ctx.fixture, 'file-derived variables not recognised (%d)' % n_sources)
+    ctx.require(n_sinks >= 6 or ctx.fixture, 'only %d sinks of file-derived values found' % n_sinks)
+    for g in fam:
+        r = results.get(g.name)
+        if r is None:
             continue
-        seen_keys.add(key)
-        ok = i not in unchecked
-        ctx.ob('R17.2', key, ok, f.loc(sn),
-               'file-derived %s is compared against a bound before it is used as %s' % (k, kind)
-               if ok else
-               'file-derived value %s is used as %s (%s) on a path where it was never compared '
-               'against a bound: a damaged file drives the loader out of bounds' % (
-                   k, kind, f.show(sn)[:60]))
+        for o in r.obs:
+            ctx.ob(*o)
     # unsigned subtraction inside a guard
-    for n in f.all_nodes():
-        if n['k'] == 'bin' and n['op'] in RELOPS:
-            for side in f.kids(n):
-                s = cu.strip_casts(f, side)
-                if s is not None and s['k'] == 'bin' and s['op'] == '-' and \
-                        'unsigned' in (s.get('t') or '') + ' ' + 'size_t' * ('size_t' in (s.get('t') or '')) \
-                        or (s is not None and s['k'] == 'bin' and s['op'] == '-' and (s.get('t') or '') in ('size_t', 'unsigned long', 'uint32_t', 'unsigned int')):
-                    minuend = f.show(f.kid(s, 0))
-                    sub = f.show(f.kid(s, 1))
-                    # needs `minuend < sub` / `minuend >= sub` on the same condition chain
-                    top = n
-                    for a in f.ancestors(n):
-                        if a['k'] == 'bin' and a['op'] in ('||', '&&'):
-                            top = a
-                        else:
-                            break
-                    guarded = False
-                    for x in f.walk(top):
-                        if x['k'] == 'bin' and x['op'] in ('<', '>=', '>', '<=') and x is not n:
-                            a0, a1 = f.show(f.kid(x, 0)), f.show(f.kid(x, 1))
-                            if minuend in (a0, a1) and ('sizeof' in a0 + a1 or sub in (a0, a1)):
+    for f in fam:
+        for n in f.all_nodes():
+            if n['k'] == 'bin' and n['op'] in RELOPS:
+                for side in f.kids(n):
+                    s = cu.strip_casts(f, side)
+                    if s is not None and s['k'] == 'bin' and s['op'] == '-' and \
+                            ('unsigned' in (s.get('t') or '') or
+                             (s.get('t') or '') in ('size_t', 'unsigned long', 'uint32_t', 'unsigned int')):
+                        minuend = f.show(f.kid(s, 0))
+                        sub = f.show(f.kid(s, 1))
+                        # needs `minuend < sub` / `minuend >= sub`: on the same condition chain, or
+                        # as an earlier guard that leaves the function
+                        top = n
+                        for a in f.ancestors(n):
+                            if a['k'] == 'bin' and a['op'] in ('||', '&&'):
+                                top = a
+                            else:
+                                break
+                        guarded = False
+
+                        def is_lower(x):
+                            if x['k'] == 'bin' and x['op'] in ('<', '>=', '>', '<=') and x is not n:
+                                a0, a1 = f.show(f.kid(x, 0)), f.show(f.kid(x, 1))
+                                return minuend in (a0, a1) and ('sizeof' in a0 + a1 or sub in (a0, a1))
+                            return False
+                        for x in f.walk(top):
+                            if is_lower(x):
                                 guarded = True
-                    ctx.ob('R17.2', '%s:guard:%s-minus-%s:lower-bound' % (f.name, minuend, sub[:16]),
-                           guarded, f.loc(n),
-                           'the unsigned subtraction in the guard has its own lower-bound test'
-                           if guarded else
-                           'the guard `%s` subtracts from the unsigned %s without first testing '
-                           '%s >= %s: for a short buffer the difference wraps around and the '
-                           'guard accepts any offset' % (f.show(n)[:60], minuend, minuend, sub[:20]))
-    ctx.count('file_derived_variables', len(sources))
-    ctx.count('sinks', len(sinks))
+                        if not guarded:
+                            # `if (minuend < sub) return ...;` as a preceding sibling statement
+                            child = n
+                            for a in f.ancestors(n):
+                                if a['k'] == 'compound':
+                                    for st in f.kids(a):
+                                        if st is child or f.is_ancestor(st, n):
+                                            break
+                                        if st['k'] == 'if' and f.kid(st, 0) is not None and \
+                                                any(is_lower(x) for x in f.walk(f.kid(st, 0))) and \
+                                                any(y['k'] in ('ret', 'goto', 'continue', 'break')
+                                                    for y in f.walk(f.kid(st, 1))):
+                                            guarded = True
+                                child = a
+                        ctx.ob('R17.2', '%s:guard:%s-minus-%s:lower-bound' % (f.name, minuend, sub[:16]),
+                               guarded, f.loc(n),
+                               'the unsigned subtraction in the guard has its own lower-bound test'
+                               if guarded else
+                               'the guard `%s` subtracts from the unsigned %s without first testing '
+                               '%s >= %s: for a short buffer the difference wraps around and the '
+                               'guard accepts any offset' % (f.show(n)[:60], minuend, minuend, sub[:20]))
+    ctx.count('file_derived_variables', n_sources)
+    ctx.count('sinks', n_sinks)
 
 
 def r17_3(ctx):
-    f = ctx.fn(LOADER, 'libyara/arena.c')
-    # the relocation read loop: a loop whose condition is a yr_stream_read
+    root = ctx.fn(LOADER, 'libyara/arena.c')
+    # the relocation read loop: a loop whose condition is a yr_stream_read (in the
+    # loader or in a helper it is built from)
     loops = []
-    for n in f.all_nodes():
-        if n['k'] in ('while', 'for', 'do'):
-            c = f.kid(n, 0) if n['k'] == 'while' else None
-            if n['k'] == 'for':
-                parts = n.get('parts', [])
-                c = f.node(parts[1]) if len(parts) > 1 and parts[1] >= 0 else None
-            if n['k'] == 'do':
-                c = f.kids(n)[-1]
-            if c is not None and any(x['k'] == 'call' and x.get('callee') == 'yr_stream_read'
-                                     for x in f.walk(c)):
-                loops.append((n, c))
+    for f in loader_family(ctx):
+        for n in f.all_nodes():
+            if n['k'] in ('while', 'for', 'do'):
+                c = f.kid(n, 0) if n['k'] == 'while' else None
+                if n['k'] == 'for':
+                    parts = n.get('parts', [])
+                    c = f.node(parts[1]) if len(parts) > 1 and parts[1] >= 0 else None
+                if n['k'] == 'do':
+                    c = f.kids(n)[-1]
+                if c is not None and any(x['k'] == 'call' and x.get('callee') == 'yr_stream_read'
+                                         for x in f.walk(c)):
+                    loops.append((f, n, c))
     ctx.require(loops or ctx.fixture, 'relocation read loop not found')
-    for n, c in loops:
+    for f, n, c in loops:
         # delimited if the loop (or the code after it) compares a counter with
         # a value read from the file, or recognises a terminator entry
         body_txt = ' '.join(f.show(x) for x in f.walk(n) if x['k'] == 'bin' and x['op'] in RELOPS)
         delimited = any(t in body_txt for t in ('num_relocs', 'reloc_count', 'num_entries', 'EOL',
                                                 'terminator', '4294967295'))
-        ctx.ob('R17.3', '%s:relocation-list:delimited' % f.name, delimited, f.loc(n),
+        ctx.ob('R17.3', '%s:relocation-list:delimited' % root.name, delimited, f.loc(n),
                'the relocation list is delimited by a count or terminator that the reader checks'
                if delimited else
                'the relocation list is read until the stream ends (`%s`): the writer stores no '
